@@ -77,16 +77,6 @@ fn main() {
         println!("{}", props::c15::obs_line(&props::c15::observe(pi)));
         return;
     }
-    if args[1] == "fmt" {
-        // mmv fmt <src-or-file> <width>   (ad-hoc debugging aid: the formatter's output)
-        let src = if std::path::Path::new(&args[2]).exists() { std::fs::read_to_string(&args[2]).unwrap() } else { args[2].clone() };
-        let w: usize = args.get(3).and_then(|s| s.parse().ok()).unwrap_or(80);
-        match mimium_fmt::pretty_print_cst(&src, &None, w) {
-            Ok(o) => print!("{o}"),
-            Err(e) => println!("ERR {e:?}"),
-        }
-        return;
-    }
     if args[1] == "diag" {
         // mmv diag <src-or-file>   (ad-hoc debugging aid: diagnostics of the VM compile entry point with their labels)
         let src = if std::path::Path::new(&args[2]).exists() { std::fs::read_to_string(&args[2]).unwrap() } else { args[2].clone() };
@@ -95,6 +85,27 @@ fn main() {
         match ctx.get_compiler().unwrap().emit_bytecode(&src) {
             Ok(_) => println!("accepted"),
             Err(es) => es.iter().for_each(|e| println!("ERR {e}: {:?}", e.get_labels().iter().map(|(l, m)| format!("{}..{} {m}", l.span.start, l.span.end)).collect::<Vec<_>>())),
+        }
+        return;
+    }
+    if args[1] == "fmt" {
+        // mmv fmt <src-or-file> [width]   (ad-hoc debugging aid: formatter output, second pass, parse errors of the output)
+        let src = if std::path::Path::new(&args[2]).exists() { std::fs::read_to_string(&args[2]).unwrap() } else { args[2].clone() };
+        let w: usize = args.get(3).and_then(|s| s.parse().ok()).unwrap_or(80);
+        match mimium_fmt::pretty_print_cst(&src, &None, w) {
+            Ok(o) => {
+                println!("{o}");
+                let (_, _, errs) = mimium_lang::compiler::parser::parse_to_expr(&o, None);
+                println!("--- parse errors of the output: {}", errs.len());
+                let (_, _, errs0) = mimium_lang::compiler::parser::parse_to_expr(&src, None);
+                println!("--- parse errors of the input: {}", errs0.len());
+                match mimium_fmt::pretty_print_cst(&o, &None, w) {
+                    Ok(o2) if o2 == o => println!("--- fixed point"),
+                    Ok(o2) => println!("--- second pass differs:\n{o2}"),
+                    Err(_) => println!("--- second pass rejected"),
+                }
+            }
+            Err(_) => println!("formatter rejected the input"),
         }
         return;
     }
